@@ -5955,13 +5955,17 @@ class CodegenCtx:
         needs_early_advance = any(x.may_return_early() for x in transition.actions)
         # (strict done token generation only postpones DONE to the next feed call; there is no next call after end)
         immediate_done = transition.target in self.dfa.accepting_states and (from_end or not ProgramData.do(ProgramFlag.STRICT_DONE_TOKEN_GENERATION)) and all(x.error_handling for x in transition.target.transitions)
-        if needs_early_advance and not from_end and not transition.is_fallthrough and not immediate_done:
-            if ProgramData.do(ProgramFlag.INDIRECT_START_PTR):
-                transition_body.add(f"++(*start);");
-            else:
-                transition_body.add(f"++start;");
+        early_advance_pending = needs_early_advance and not from_end and not transition.is_fallthrough and not immediate_done
         # Generate actions
         for action in transition.actions:
+            if early_advance_pending and action.may_return_early():
+                # advance right before the action that may return: actions in front of it may still redirect (out of space)
+                # and must then leave the start pointer on the offending character
+                early_advance_pending = False
+                if ProgramData.do(ProgramFlag.INDIRECT_START_PTR):
+                    transition_body.add(f"++(*start);");
+                else:
+                    transition_body.add(f"++start;");
             transition_body.add()
             transition_body.add(f"// action {action!r} ")
             transition_body += self._generate_action_implementation(action, is_end=from_end, transition=transition)
